@@ -114,6 +114,8 @@ def jax_vmap(I, f, in_axes=0, out_axes=0, **kw):
 
         def elem(i):
             sl = slice_spec(I, spec, tuple(args), i)
+            if isinstance(sl, UVal):          # opaque in_axes: the slice of the argument tuple is an opaque tuple
+                sl = I.unpack(sl, len(args))
             return I.call(f, list(sl), {})
         st = Stacked(n, elem, tag="vmap")
         # jax traces the mapped function once whatever the length: Python-level errors (wrong arity ...) surface here
